@@ -241,6 +241,11 @@ package stick
 //@ pred stackOf(s *state) = s.scope.scopes
 
 //@ func stick.(*state).walk
+// C10: include runs the target on a state of its own over the context computed by walkIncludeNode, writing to the
+// current writer; embed additionally gives that state exactly two block tables: the blocks overridden in the embed
+// body, then the embedded template's own (nothing of the embedding template)
+//@   at "execute(tpl, s.out, ctx, s.env)" isolated: fresh(ctx) && (forall i trig :: 0 <= i && i < len(s.scope.scopes) ==> s.scope.scopes[i] != ctx)
+//@   at "si.walk(tree.Root())" chain: fresh(si) && si.scope != s.scope && len(si.scope.scopes) == 1 && si.scope.scopes[0] == ctx && fresh(ctx) && len(si.blocks) == 2 && si.blocks[0] == node.Blocks && si.out == s.out
 // C09: an extending template appends its parent's block table at the end of the chain before its own use statements
 // are processed, then renders the parent's root (its own body is only scanned by walkChild, which renders nothing);
 // a block node renders the most derived definition, as current block, under its defining template's name
@@ -334,6 +339,13 @@ package stick
 //@   ensures order: wafterfail() ==> old(wafterfail()) || old(wfail())
 //@   ensures files: openfiles() == old(openfiles())
 //@   ensures ctx: err == nil ==> ctx != nil && fresh(ctx)
+// C10: the context handed to the included template is a map of its own (never one of the including template's
+// scope maps), and with 'only' it holds nothing but entries of the with-hash
+// (heap closedness at entry, a fact of the language: a map stored in the scope stack has been allocated before)
+//@   assume closed: forall i :: 0 <= i && i < len(s.scope.scopes) ==> allocated(s.scope.scopes[i])
+//@   ensures own: err == nil ==> (forall i trig :: 0 <= i && i < len(s.scope.scopes) ==> s.scope.scopes[i] != ctx)
+//@   asserts only: err == nil && node.Only ==> (forall k trig :: mdom("map[string]Value", ctx, k) ==> istype(with, "map[string]Value") && mdom("map[string]Value", unbox(with, "map[string]Value"), k))
+//@   loop 1 invariant only: ctx != nil && fresh(ctx) && (node.Only ==> (forall k trig :: mdom("map[string]Value", ctx, k) ==> istype(with, "map[string]Value") && mdom("map[string]Value", unbox(with, "map[string]Value"), k)))
 //@   requires xinv(s)
 //@   ensures inv: xinv(s)
 //@   ensures out: err == nil ==> s.out == old(s.out)
